@@ -22,6 +22,7 @@ REGISTRY = {
     'C19': 'harness.c19',
     'C20': 'harness.c20',
     'X01': 'harness.x01',      # extension checks (not listed properties; not in MANIFEST)
+    'X02': 'harness.x02',
 }
 
 if __name__ == '__main__':
